@@ -55,8 +55,12 @@ def tasks(tier, seed):
             T.append(('defect', Mf, Mc, sw))
     T.append(('fixedpoint3', 2, 2, 1, 'implicit', 1))
     T.append(('fixedpoint3', 3, 2, 1, 'explicit', 1))
+    T.append(('fixedpoint3', 3, 2, 2, 'implicit', 1))  # equal node counts on the pair that inherits a correction
+    T.append(('fixedpoint3', 2, 2, 2, 'explicit', 1))
     if not quick:
         T.append(('fixedpoint3', 3, 2, 2, 'implicit', 2))
+        T.append(('fixedpoint3', 3, 3, 3, 'implicit', 1))
+        T.append(('fixedpoint3', 4, 3, 3, 'explicit', 1))
         T.append(('fixedpoint', 3, 2, 'implicit', False, 2))
     for Mf, Mc in ([(3, 2), (2, 2)] if quick else [(3, 2), (2, 2), (4, 2), (3, 1), (5, 3)]):
         for qd in ('LU', 'IE'):
@@ -95,6 +99,8 @@ def symmat(name, shape, lower=False, pad=True, strict=False):
 
 def make_step(Ms, sw, finter, prob=sp.UFProb, pparams=None, space=sp.Inject, qd='LU'):
     swc = generic_implicit if sw == 'implicit' else explicit
+    if prob is sp.UFProb and pparams is None:
+        pparams = {'name': ['F', 'Fc1', 'Fc2'][: len(Ms)]}  # every coarser level has its own uninterpreted right-hand side
     d = dict(problem_class=prob, problem_params=pparams or {}, sweeper_class=swc,
              sweeper_params={'num_nodes': list(Ms), 'quad_type': 'RADAU-RIGHT', **({'QI': qd} if sw == 'implicit' else {})},
              level_params={'dt': 0.5}, step_params={'maxiter': 1}, space_transfer_class=space,
@@ -277,21 +283,23 @@ def float_cycle(Ms, sw, finter, nsweeps, lam=-1.3, cubic=0.4, dt=0.3, u0=0.7, qd
         dtype_u = mesh
         dtype_f = mesh
 
-        def __init__(self):
+        def __init__(self, lvl=0):
             super().__init__(init=(1, None, np.dtype('float64')))
+            # coarser levels carry a different problem (as with spatial coarsening): the clauses hold for any coarse right-hand side
+            self.lam, self.cubic = lam * (1 - 0.2 * lvl), cubic * (1 + 0.3 * lvl)
 
         def eval_f(self, u, t):
             f = self.dtype_f(self.init)
-            f[:] = lam * np.asarray(u) + cubic * np.asarray(u) ** 3 + np.sin(3.0 * t)
+            f[:] = self.lam * np.asarray(u) + self.cubic * np.asarray(u) ** 3 + np.sin(3.0 * t)
             return f
 
         def solve_system(self, rhs, factor, u0_, t):
             me = self.dtype_u(self.init)
-            g = lambda w: w - factor * (lam * w + cubic * w**3 + np.sin(3.0 * t)) - float(rhs[0])
+            g = lambda w: w - factor * (self.lam * w + self.cubic * w**3 + np.sin(3.0 * t)) - float(rhs[0])
             me[:] = fsolve(g, float(u0_[0]), xtol=1e-15)[0]
             return me
 
-    st = make_step(Ms, sw, finter, prob=NL, space=FloatInjectT, qd=qd)
+    st = make_step(Ms, sw, finter, prob=NL, pparams={'lvl': list(range(len(Ms)))}, space=FloatInjectT, qd=qd)
     for L in st.levels:
         L.params.dt = dt
         L.status.time = 0.0
@@ -393,7 +401,8 @@ def float_defect(Mf, Mc, sw, seed=3):
     from harness import sweepspec as ss
 
     rng = np.random.RandomState(seed)
-    st = make_step((Mf, Mc), sw, False, prob=ss.FLin, pparams={'A': np.array([[-1.7]])}, space=FloatInjectT)
+    # different operators on the two levels (as with spatial coarsening): the clause holds for any coarse problem
+    st = make_step((Mf, Mc), sw, False, prob=ss.FLin, pparams={'A': [np.array([[-1.7]]), np.array([[-1.1]])]}, space=FloatInjectT)
     Lf, Lc = st.levels
     for L in st.levels:
         L.status.time = 0.0
